@@ -206,10 +206,31 @@ var wideNonceOpt = Opt{GasEnough: true, NoRAE: true, Direct: true, NoCall: true,
 
 func C02_NFTAddQuantityWideNonce() {
 	wideNonce = true
-	supplyOracle(scnNFTAddQuantity(wideNonceOpt))
+	s := scnNFTAddQuantity(wideNonceOpt)
+	supplyOracle(s)
+	fungibleUntouched(s)
 }
 
 func C02_NFTBurnWideNonce() {
 	wideNonce = true
-	supplyOracle(scnNFTBurn(wideNonceOpt))
+	s := scnNFTBurn(wideNonceOpt)
+	supplyOracle(s)
+	fungibleUntouched(s)
+}
+
+// fungibleUntouched: an NFT operation (its nonce argument is not zero) never writes an entry that
+// was a fungible holding (present, no metadata) - whatever the nonce truncates to.
+func fungibleUntouched(s *Scn) {
+	verif.Assume(num(s.NonceB).Sign() != 0)
+	for _, wr := range s.W.Log {
+		if wr.Kind != "kv" || world.KeyClass(wr.Key) != "token" {
+			continue
+		}
+		c := wr.Acct.Find(wr.Key)
+		if c == nil || c.Blind || len(c.Init) == 0 {
+			continue
+		}
+		t := s.W.Codec.Token(c.Init)
+		verif.Assert("nft-operation-leaves-fungible-entries-alone", verif.Or(t == nil, t != nil && t.TokenMetaData != nil))
+	}
 }
